@@ -1,5 +1,7 @@
 import Ruint.Model.Bytes
-/-! Driver for C08: model = `Ruint.Bytes.*` on limb lists / byte lists; spec = base-256 arithmetic on `Nat`. -/
+import Ruint.Gen.WordsBytes
+/-! Driver for C08: model = `Ruint.Bytes.*` on limb lists / byte lists (the decoders `try_from_le_slice` / `try_from_be_slice`
+are the functions GENERATED from `src/bytes.rs`, `Props/C08.gen_try_from_*_slice_eq`); spec = base-256 arithmetic on `Nat`. -/
 open Ruint Ruint.Bytes Ruint.Canon
 
 namespace Ruint.DrvC08
@@ -21,6 +23,11 @@ def specLE (n x : Nat) : List Nat := (List.range n).map fun i => x / 256 ^ i % 2
 def ndigits (x : Nat) : Nat := (Nat.log2 x + 8) / 8 * (if x = 0 then 0 else 1)
 def ofLE (bs : List Nat) : Nat := bs.foldr (fun b a => b + 256 * a) 0
 def ofBE (bs : List Nat) : Nat := bs.foldl (fun a b => a * 256 + b) 0
+
+def genRes : Option (Option (List Nat)) → Res
+  | some (some l) => .ok l
+  | some none => .none
+  | none => .panic
 
 def resStr : Res → String
   | .ok l => "some " ++ out l
@@ -85,8 +92,10 @@ def handle (args : List String) (_impl : String) : String × String :=
       let v := if le then ofLE b else ofBE b
       let fits := decide (b.length ≤ nb) && decide (v < m)
       match op with
-      | "try_le" => (resStr (tryFromLeSlice bits b), if fits then "some " ++ toHex v else "none")
-      | "try_be" => (resStr (tryFromBeSlice bits b), if fits then "some " ++ toHex v else "none")
+      | "try_le" => (resStr (genRes (Ruint.Gen.uint_try_from_le_slice (nlimbs bits + b.length + 2) bits (nlimbs bits) b)),
+                     if fits then "some " ++ toHex v else "none")
+      | "try_be" => (resStr (genRes (Ruint.Gen.uint_try_from_be_slice (nlimbs bits + b.length + 2) bits (nlimbs bits) b)),
+                     if fits then "some " ++ toHex v else "none")
       | "from_le_slice" => (resStrP (fromLeSlice bits b), if fits then toHex v else "panic")
       | "from_be_slice" => (resStrP (fromBeSlice bits b), if fits then toHex v else "panic")
       | "from_le_bytes" => (resStrP (fromLeBytes bits b),
